@@ -299,8 +299,16 @@ fn document_level(tier: &str, seed: u64, s: &mut Search) {
         }
         let ci = if identity_chain || rng.chance(1, 2) { "sRGB" } else { "linearRGB" };
         let hdr = format!(r#"<svg xmlns="http://www.w3.org/2000/svg" xmlns:xlink="http://www.w3.org/1999/xlink" width="{}" height="{}" viewBox="0 0 {w} {h}">"#, w as i64 * scale, h as i64 * scale);
+        // the working colour space is written on the filter itself or arrives there by inheritance
+        let (on_root, on_defs, on_filter) = match rng.below(5) {
+            0 => (format!(r#" color-interpolation-filters="{ci}""#), String::new(), String::new()),
+            1 => (String::new(), format!(r#" color-interpolation-filters="{ci}""#), String::new()),
+            2 => (String::new(), format!(r#" style="color-interpolation-filters:{ci}""#), String::new()),
+            _ => (String::new(), String::new(), format!(r#" color-interpolation-filters="{ci}""#)),
+        };
+        let hdr_f = hdr.replacen(" width=", &format!("{on_root} width="), 1);
         let filtered = format!(
-            r##"{hdr}<defs>{defs0}<filter id="zf" filterUnits="userSpaceOnUse" x="{rx}" y="{ry}" width="{rw}" height="{rh}" color-interpolation-filters="{ci}">{prims}</filter></defs><g filter="url(#zf)">{content}</g></svg>"##
+            r##"{hdr_f}<defs{on_defs}>{defs0}<filter id="zf" filterUnits="userSpaceOnUse" x="{rx}" y="{ry}" width="{rw}" height="{rh}"{on_filter}>{prims}</filter></defs><g filter="url(#zf)">{content}</g></svg>"##
         );
         let (cw, ch) = ((w as i64 * scale) as u32, (h as i64 * scale) as u32);
         let Ok(Ok(t)) = crate::pan::catch(|| usvg::Tree::from_str(&filtered, &o)) else { continue };
